@@ -163,10 +163,13 @@ func (a asmInstr) alignmentChecked() bool {
 func checkC15(c *Ctx, r *Report, tier string) {
 	round5(c, r, "C15")
 	round6(c, r, "C15")
+	round7(c, r, "C15")
 	r.Rule("C15.R1", "alignment independence (object code built from the current .s files): no instruction with an alignment-checked memory operand (movaps/movdqa/…, their VEX forms, and every legacy-SSE packed instruction with an m128 source) addresses memory through one of the two data pointers (the linker-aligned constant pool is exempt)", 6)
 	r.Rule("C15.R2", "stores go only to the result slots (the pointers loaded from the 4th/5th argument) or the stack; the data pointers and the length register are never written", 6)
 	r.Rule("C15.R3", "control flow is a function of the length alone: no move from a vector register or from data memory into a general register, no comiss/ucomiss/ptest/movmsk feeding flags", 6)
 	r.Rule("C15.R9", "the kernels leave the floating-point control state alone: no ldmxcsr / vldmxcsr / fldcw / fxrstor / xrstor — rounding mode, flush-to-zero and denormals-are-zero belong to the Go runtime's thread, and a kernel that changes them changes every later result on that thread, the portable kernels' included", 6)
+	r.Rule("C15.R12", "the kernel reads its two vectors alike: as many memory operands of each width through one data pointer as through the other", 6)
+	r.Rule("C15.R13", "a vector register zeroed in front of a loop and read in it is written in it (accumulators accumulate)", 6)
 	r.Rule("C15.R10", "the unrolled loop is entered exactly when a full round of it fits: where a kernel reduces the block count modulo its unroll factor U (`and r32, U-1`), the test that follows compares the rounded length minus one with (U-1)·W, W = floats per vector load (`test blocks-1` for U = 2)", 2)
 	r.Rule("C15.R11", "every accumulated value reaches the result: on every path from a scalar accumulate (addss / vaddss) to ret the result slot is stored", 6)
 	r.Rule("C15.R5", "head/tail split is consistent with the vector width: with W = floats per widest load through a data pointer, every `and reg, -M` rounding the length has M = W, and every `not reg; or reg, K` (the complement of that rounding, used to count the scalar tail) has K = W-1", 6)
@@ -360,6 +363,7 @@ func analyseKernel(c *Ctx, r *Report, name string, ins []asmInstr) {
 		break
 	}
 	defer func() { roundingConstantsAgree(c, r, name, ins, role) }()
+	defer func() { kernelDataflowShape(c, r, name, ins, role) }()
 	var dataRegs, resRegs []string
 	lenReg := ""
 	for rg, ro := range role {
